@@ -253,19 +253,14 @@ func (c connectUnaryServerProtocol) protocol() Protocol {
 
 func (c connectUnaryServerProtocol) addProtocolRequestHeaders(meta requestMeta, headers http.Header) {
 	headers.Set("Content-Type", contentConnectUnaryPrefix+meta.codec)
-	if meta.compression != "" {
-		headers.Set("Content-Encoding", meta.compression)
-	}
-	if len(meta.acceptCompression) > 0 {
-		headers.Set("Accept-Encoding", strings.Join(meta.acceptCompression, ", "))
-	}
+	setOrDelete(headers, "Content-Encoding", meta.compression)
+	setOrDelete(headers, "Accept-Encoding", strings.Join(meta.acceptCompression, ", "))
 	headers.Set("Connect-Protocol-Version", "1")
+	timeoutStr := ""
 	if meta.hasTimeout {
-		timeoutStr := connectEncodeTimeout(meta.timeout)
-		if timeoutStr != "" {
-			headers.Set("Connect-Timeout-Ms", timeoutStr)
-		}
+		timeoutStr = connectEncodeTimeout(meta.timeout)
 	}
+	setOrDelete(headers, "Connect-Timeout-Ms", timeoutStr)
 }
 
 func (c connectUnaryServerProtocol) extractProtocolResponseHeaders(statusCode int, headers http.Header) (responseMeta, responseEndUnmarshaller, error) {
@@ -514,15 +509,13 @@ func (c connectStreamServerProtocol) protocol() Protocol {
 
 func (c connectStreamServerProtocol) addProtocolRequestHeaders(meta requestMeta, headers http.Header) {
 	headers.Set("Content-Type", contentConnectStreamPrefix+meta.codec)
-	if meta.compression != "" {
-		headers.Set("Connect-Content-Encoding", meta.compression)
-	}
-	if len(meta.acceptCompression) > 0 {
-		headers.Set("Connect-Accept-Encoding", strings.Join(meta.acceptCompression, ", "))
-	}
+	setOrDelete(headers, "Connect-Content-Encoding", meta.compression)
+	setOrDelete(headers, "Connect-Accept-Encoding", strings.Join(meta.acceptCompression, ", "))
+	timeoutStr := ""
 	if meta.hasTimeout {
-		headers.Set("Connect-Timeout-Ms", connectEncodeTimeout(meta.timeout))
+		timeoutStr = connectEncodeTimeout(meta.timeout)
 	}
+	setOrDelete(headers, "Connect-Timeout-Ms", timeoutStr)
 }
 
 func (c connectStreamServerProtocol) extractProtocolResponseHeaders(statusCode int, headers http.Header) (responseMeta, responseEndUnmarshaller, error) {
